@@ -13,6 +13,7 @@ BINARY = ["ADD", "SUB", "MUL", "DIV", "SDIV", "MOD", "SMOD", "EXP", "SIGNEXTEND"
           "LT", "GT", "SLT", "SGT", "EQ", "AND", "OR", "XOR", "BYTE", "SHL", "SHR", "SAR"]
 TERNARY = ["ADDMOD", "MULMOD"]
 A160 = (1 << 160) - 1
+EXTRA_CONSTS = [3, 4, 6, 1 << 64, (1 << 64) - 1, A160, 1 << 160, A160 - 1, 3 << 254, (1 << 255) + 1]
 
 
 def compile_copy(exprs, n_inputs):
@@ -103,6 +104,12 @@ def rule_family(level=1):
             forms.append([P(v), I("DUP1"), I(op)])
             for w in BOUNDARY:
                 forms.append([P(w), P(v), I(op)])
+        # further constants around the side conditions of rules (power-of-two tests, 160-bit masks): cheap forms only
+        for v in EXTRA_CONSTS:
+            forms.append([P(v), I(op)])
+            forms.append([P(v), I("SWAP1"), I(op)])
+            forms.append(compile_copy([(op, C(v), X)], 2))
+            forms.append(compile_copy([(op, X, C(v))], 2))
         for b in forms:
             if emit(b):
                 yield b
